@@ -904,7 +904,7 @@ v("pair-returning-helper-swapped-components", [(P, "    async def _apply_spawner
 v("P-cancel-kw-before-lookups", [(P, "        tasks = [self._get_running_task(task_id) for task_id in task_ids]\n        kw = self._get_cancel_kw(msg)\n",
                                  "        kw = self._get_cancel_kw(msg)\n        tasks = [self._get_running_task(task_id) for task_id in task_ids]\n")], {"C06": "ok", "C07": "ok", "C14": "ok"})
 v("cancel-lookups-generator-in-loop-header", [(P, "        tasks = [self._get_running_task(task_id) for task_id in task_ids]\n        kw = self._get_cancel_kw(msg)\n        for task in tasks:\n",
-                                              "        kw = self._get_cancel_kw(msg)\n        for task in (self._get_running_task(task_id) for task_id in task_ids):\n")], {"C06": "R06.3"})
+                                              "        kw = self._get_cancel_kw(msg)\n        for task in (self._get_running_task(task_id) for task_id in task_ids):\n")], {"C06": "viol"})
 
 STOP_BREAK = "                # there may well be more tasks left to keep running\n                break\n"
 v("P-stop-bound-continue-instead-of-break", [(P, STOP_BREAK, "                # there may well be more tasks left to keep running\n                continue\n")], {"C14": "ok"})
@@ -1144,3 +1144,32 @@ v("cancel-each-skips-first", [(P, "        for task in tasks:\n            task.
 v("flush-suppresses-callers-cancellation-again", [(P, "        await gather(*self._meta_tasks_cancelled, return_exceptions=True)\n        await gather(\n            *self._pop_ended_meta_tasks(),\n            return_exceptions=return_exceptions,\n        )\n        self._meta_tasks_cancelled.clear()\n        # Only", "        with suppress(CancelledError):\n            await gather(\n                *self._meta_tasks_cancelled,\n                *self._pop_ended_meta_tasks(),\n                return_exceptions=return_exceptions,\n            )\n        self._meta_tasks_cancelled.clear()\n        # Only"), (P, "from math import inf\n", "from contextlib import suppress\nfrom math import inf\n")], {"C07": "R07.11", "C06": "R06.7", "C14": "R14.10"})
 v("until-closed-swallows-cancellation", [(P, "        return await self._closed.wait()\n", "        try:\n            return await self._closed.wait()\n        except CancelledError:\n            return False\n")], {"C07": "R07.11"})
 v("P-flush-cancel-handler-reraises", [(P, "        await gather(*self._meta_tasks_cancelled, return_exceptions=True)\n        await gather(\n            *self._pop_ended_meta_tasks(),", "        try:\n            await gather(*self._meta_tasks_cancelled, return_exceptions=True)\n        except CancelledError:\n            log.debug(\"%s flush interrupted\", str(self))\n            raise\n        await gather(\n            *self._pop_ended_meta_tasks(),")], {"C07": "ok", "C06": "ok", "C13": "ok"})
+
+# ---- batch 15 (rf145-rf152)
+v("P-end-wrapper-is-a-partial", [], {"C05": "ok", "C12": "ok"}, base="rf147")
+v("partial-wrapper-executes-before-release", [(P, "    map_semaphore.release()\n    await execute_optional(actual_end_callback, args=(task_id,))\n", "    await execute_optional(actual_end_callback, args=(task_id,))\n    map_semaphore.release()\n")], {"C05": "R05.4", "C12": "R12.1m"}, base="rf147")
+v("partial-wrapper-bound-to-other-semaphore", [(P, "        return partial(\n            _release_then_execute, map_semaphore, actual_end_callback\n        )\n", "        return partial(\n            _release_then_execute, Semaphore(), actual_end_callback\n        )\n")], {"C05": "alarm"}, base="rf147")
+v("partial-wrapper-renamed-parameter", [(P, "async def _release_then_execute(\n    map_semaphore: Semaphore,", "async def _release_then_execute(\n    sem: Semaphore,"), (P, "    map_semaphore.release()\n    await execute_optional(actual_end_callback, args=(task_id,))\n", "    sem.release()\n    await execute_optional(actual_end_callback, args=(task_id,))\n")], {"C05": "ok", "C12": "ok"}, base="rf147")
+v("P-alias-property-start-counter", [], {"C10": "ok", "C14": "ok"}, base="rf151")
+v("alias-property-counter-not-advanced", [(P, "        self._group_counter += 1\n", "        self._group_counter += 0\n")], {"C10": "R10.3"}, base="rf151")
+v("P-special-kwargs-property", [], {"C18": "ok", "C16": "ok"}, base="rf150")
+v("special-kwargs-property-other-stream", [(PA, "        return CommandParserSpecialKwargs(\n            stream=self._stream,\n", "        return CommandParserSpecialKwargs(\n            stream=sys.stdout,\n"), (PA, "from __future__ import annotations\n", "from __future__ import annotations\n\nimport sys\n")], {"C18": "R18.1"}, base="rf150")
+v("P-star-constants-imported", [], {"C05": "ok"}, base="rf148")
+v("star-constants-swapped", [(HELPERS, "    if arg_stars == SINGLE_STAR:\n        return function(*arg)\n    if arg_stars == DOUBLE_STAR:\n        return function(**arg)\n", "    if arg_stars == DOUBLE_STAR:\n        return function(*arg)\n    if arg_stars == SINGLE_STAR:\n        return function(**arg)\n")], {"C05": "R05.1"}, base="rf148")
+v("star-constant-value-changed", [("internals/constants.py", "SINGLE_STAR = 1\nDOUBLE_STAR = 2\n", "SINGLE_STAR = 2\nDOUBLE_STAR = 1\n")], {"C05": "R05.1"}, base="rf148")
+# ---- round 14
+v("group-helper-skips-spawners-of-empty-group", [(P, "        self._cancel_group_meta_tasks(group_name)\n        while group_reg:", "        if not group_reg:\n            return\n        self._cancel_group_meta_tasks(group_name)\n        while group_reg:")], {"C07": "R07.2", "C08": "R08.11"})
+v("P-ids-through-imported-yield-from", [], {"C10": "ok", "C07": "ok"}, base="rf152")
+v("imported-members-skips-small-groups", [(GR, "    for members in groups:\n        yield from members\n", "    for members in groups:\n        if len(members) > 1:\n            yield from members\n")], {"C10": "alarm"}, base="rf152")
+v("get-group-unknown-name-gives-empty", [(P, "        try:\n            return self._task_groups[group_name]\n        except KeyError:\n            raise TaskGroupNotFound(group_name) from None\n", "        try:\n            return self._task_groups[group_name]\n        except KeyError:\n            return TaskGroupRegister()\n")], {"C10": "alarm"}, base="rf152")
+v("pop-items-generator-keeps-last", [(GR, "    while mapping:\n        yield mapping.popitem()\n", "    while len(mapping) > 1:\n        yield mapping.popitem()\n")], {"C07": "alarm"}, base="rf152")
+# ---- round 14: rebuilt registries in flush
+v("flush-rebuild-from-stale-alias", [(P, "        finished = {**self._tasks_ended, **self._tasks_cancelled}\n", "        ended = self._tasks_ended\n        finished = {**ended, **self._tasks_cancelled}\n"),
+   (P, "        for task_id in finished:\n            self._tasks_ended.pop(task_id, None)\n            self._tasks_cancelled.pop(task_id, None)\n", "        self._tasks_ended = {k: t for k, t in ended.items() if k not in finished}\n        for task_id in finished:\n            self._tasks_cancelled.pop(task_id, None)\n")], {"C13": "R13.1"})
+v("P-flush-rebuild-from-current-registry", [(P, "        for task_id in finished:\n            self._tasks_ended.pop(task_id, None)\n            self._tasks_cancelled.pop(task_id, None)\n", "        self._tasks_ended = {k: t for k, t in self._tasks_ended.items() if k not in finished}\n        for task_id in finished:\n            self._tasks_cancelled.pop(task_id, None)\n")], {"C13": "ok", "C02": "ok"})
+v("session-decodes-latin1", [(SESS, "            msg = (await self._reader.readline()).decode().strip()\n", "            msg = (await self._reader.readline()).decode(\"latin-1\").strip()\n")], {"C17": "R17.14"})
+v("session-decodes-ignoring-errors", [(SESS, "            msg = (await self._reader.readline()).decode().strip()\n", "            msg = (await self._reader.readline()).decode(errors=\"ignore\").strip()\n")], {"C17": "R17.14"})
+v("P-session-decodes-utf8-explicitly", [(SESS, "            msg = (await self._reader.readline()).decode().strip()\n", "            msg = (await self._reader.readline()).decode(\"utf-8\").strip()\n")], {"C17": "ok"})
+v("final-callback-resets-server", [(SV, "    def _final_callback(self) -> None:\n        log.debug(\"Closed socket at %s:%s\", self._host, self._port)\n", "    def _final_callback(self) -> None:\n        self._server = None\n        log.debug(\"Closed socket at %s:%s\", self._host, self._port)\n")], {"C19": "R19.1"})
+v("annotation-looked-up-in-dict", [(PA, "    if any(annotation is t for t in (AnyCoroutineFunc, EndCB, CancelCB)):\n        annotation = resolve_dotted_path\n", "    if annotation in {AnyCoroutineFunc: 1, EndCB: 1, CancelCB: 1}:\n        annotation = resolve_dotted_path\n")], {"C16": "R16.3"})
+v("session-lock-around-commands", [(SV, "        self._server: AbstractServer | None = None\n", "        self._server: AbstractServer | None = None\n        self.command_lock: Lock = Lock()\n"), (SV, "from asyncio.exceptions import CancelledError\n", "from asyncio.exceptions import CancelledError\nfrom asyncio.locks import Lock\n"), (SESS, "        if isfunction(command):\n            await self._exec_method_and_respond(command, **kwargs)\n", "        if isfunction(command):\n            async with self._control_server.command_lock:\n                await self._exec_method_and_respond(command, **kwargs)\n")], {"C18": "alarm", "C19": "alarm"})
